@@ -15,3 +15,4 @@ pub mod c04;
 pub mod prob;
 pub mod c05;
 pub mod c06;
+pub mod c07;
